@@ -82,6 +82,7 @@ type Ctx struct {
 	replayID  string
 	vioByKey  map[string]int
 	sampleCap int
+	lastFlush time.Time
 }
 
 // Quick reports whether the tier is quick.
@@ -142,7 +143,14 @@ func (c *Ctx) Case(id string, f func()) {
 	}
 	c.mu.Lock()
 	c.res.Evaluations++
+	flush := time.Since(c.lastFlush) > 2*time.Second
+	if flush {
+		c.lastFlush = time.Now()
+	}
 	c.mu.Unlock()
+	if flush {
+		c.flush(false)
+	}
 	f()
 }
 
@@ -264,6 +272,7 @@ func childMain(spec *Spec) {
 		resume:    os.Getenv("VERIF_RESUME_AFTER"),
 		replayID:  os.Getenv("VERIF_REPLAY_CASE"),
 		sampleCap: 4,
+		lastFlush: time.Now(),
 	}
 	c.skipping = c.resume != ""
 	c.res.Counters = map[string]int64{}
